@@ -296,6 +296,12 @@ def audit(prop, modules, theorems, timeout=1500):
     return ok, bad, log
 
 
+def leanchecker(modules, timeout=2400):
+    p = subprocess.run(["lake", "env", "leanchecker"] + list(modules), cwd=LEAN, stdout=subprocess.PIPE,
+                       stderr=subprocess.STDOUT, text=True, timeout=timeout)
+    return p.returncode == 0, p.stdout
+
+
 def failing_theorems(log):
     """Map `error: File.lean:LINE:COL` lines of a lake log to enclosing theorem names."""
     res = []
